@@ -377,7 +377,7 @@ func (r *Run) MustPass(fnName, match, why string) bool {
 		callee := cs.Instr.Common()
 		if errResultIndex(callee.Signature()) >= 0 {
 			from, _ := r.P.nilErrEdge(cs.Instr)
-			if from == nil && !returnsCallResult(cs.Instr) {
+			if from == nil && !returnsCallResult(cs.Instr) && !errToDealWithErr(cs.Instr) {
 				r.viol("K2-must-pass", fnName, construct, fmt.Sprintf("the error returned by %s at %s:%d is neither tested nor returned", match, cs.File, cs.Line), why, cs.File, cs.Line)
 				return false
 			}
@@ -497,8 +497,16 @@ func instrIndex(in ssa.Instruction) int {
 // CallersOf lists module functions that (may) call any of the targets: CHA edges plus static
 // references that let a function value escape (address taken).
 func (r *Run) callersOf(targets map[*ssa.Function]bool, g *callgraph.Graph) map[string][]*callgraph.Edge {
+	return r.callersOfRec(targets, g, map[*ssa.Function]bool{})
+}
+
+func (r *Run) callersOfRec(targets map[*ssa.Function]bool, g *callgraph.Graph, visited map[*ssa.Function]bool) map[string][]*callgraph.Edge {
 	out := map[string][]*callgraph.Edge{}
 	for t := range targets {
+		if visited[t] {
+			continue
+		}
+		visited[t] = true
 		n := g.Nodes[t]
 		if n == nil {
 			continue
@@ -510,7 +518,7 @@ func (r *Run) callersOf(targets map[*ssa.Function]bool, g *callgraph.Graph) map[
 			if name == "" {
 				if caller.Synthetic != "" {
 					// attribute to the callers of the wrapper
-					sub := r.callersOf(map[*ssa.Function]bool{caller: true}, g)
+					sub := r.callersOfRec(map[*ssa.Function]bool{caller: true}, g, visited)
 					for k, v := range sub {
 						out[k] = append(out[k], v...)
 					}
@@ -804,6 +812,64 @@ func storeIsSpilledReturn(st *ssa.Store) bool {
 	for i := range ret.Results {
 		if u, ok := ret.Results[i].(*ssa.UnOp); ok && u.X == a {
 			return retOperand(ret, i) == st.Val
+		}
+	}
+	return false
+}
+
+// errValues: the SSA values holding the error result of a call.
+func errValues(ci ssa.CallInstruction) []ssa.Value {
+	v := ci.Value()
+	if v == nil {
+		return nil
+	}
+	sig := ci.Common().Signature()
+	ei := errResultIndex(sig)
+	if ei < 0 {
+		return nil
+	}
+	if sig.Results().Len() == 1 {
+		return []ssa.Value{v}
+	}
+	var out []ssa.Value
+	for _, ref := range *v.Referrers() {
+		if ex, ok := ref.(*ssa.Extract); ok && ex.Index == ei {
+			out = append(out, ex)
+		}
+	}
+	return out
+}
+
+func isDealWithErr(in ssa.Instruction) bool {
+	c, ok := in.(*ssa.Call)
+	if !ok {
+		return false
+	}
+	f := c.Call.StaticCallee()
+	return f != nil && f.Name() == "DealWithErr" && f.Pkg != nil && f.Pkg.Pkg.Name() == "common"
+}
+
+// errToDealWithErr: the error of the call is handed to common.DealWithErr (panic on non-nil).
+func errToDealWithErr(ci ssa.CallInstruction) bool {
+	for _, ev := range errValues(ci) {
+		for _, ref := range *ev.Referrers() {
+			if isDealWithErr(ref) {
+				return true
+			}
+			switch x := ref.(type) {
+			case *ssa.ChangeInterface:
+				for _, r2 := range *x.Referrers() {
+					if isDealWithErr(r2) {
+						return true
+					}
+				}
+			case *ssa.MakeInterface:
+				for _, r2 := range *x.Referrers() {
+					if isDealWithErr(r2) {
+						return true
+					}
+				}
+			}
 		}
 	}
 	return false
